@@ -26,7 +26,7 @@ type Stress struct {
 	Transport string // realUDP | realTCP | memTCP | memPacket
 	Clients   int
 	Reqs      int
-	SleepUs   []int // handler sleep per request ordinal (cyclic), microseconds
+	SleepUs   []int  // handler sleep per request ordinal (cyclic), microseconds
 	Mode      string // blind: Shutdown is retried from the very beginning, without waiting for the start notification
 	//                  timed: Shutdown DelayUs after the start notification
 	DelayUs     int
